@@ -142,6 +142,7 @@ fn %(name)s() {
     kani::cover!(r.is_ok(), "accepting path reachable");
     kani::cover!(r.is_err(), "rejecting path reachable");
     %(chk)s
+    core::mem::forget(r);   // io::Error's recursive drop glue is irrelevant here and can exhaust memory
 }
 ''' % dict(name=name, n=n, call=call, chk=chk)
 
